@@ -43,6 +43,12 @@ def mk_init(mem):
     def init():
         return dict(mem)
     return init
+class CallableObject:
+    """a callable that is not a function: no __name__, no __qualname__ of its own"""
+    def __init__(self, fn):
+        self.fn = fn
+    def __call__(self, *a, **kw):
+        return self.fn(*a, **kw)
 def f_big(v, nbytes):
     import builtins
     builtins._vh_count = getattr(builtins, "_vh_count", 0) + 1
@@ -73,10 +79,14 @@ def gen_seq(rng, with_counter=False):
             seq.append({"t": "init", "mem": [[key, 100 * (i + 1) + j] for j, key in enumerate(keys)]})
         elif k == "ok":
             seq.append({"t": "ok", "v": 1000 + i})
+            if rng.random() < 0.2:
+                seq[-1]["callable"] = rng.choice(["partial", "object"])
         elif k == "raise":
             seq.append({"t": "raise", "v": 2000 + i})
             if rng.random() < 0.3:
                 seq[-1]["cls"] = rng.choice(["SystemExit", "KeyboardInterrupt", "NotAnError"])
+            if rng.random() < 0.3:
+                seq[-1]["callable"] = rng.choice(["partial", "object"])
         elif k == "preset":
             seq.append({"t": "preset", "key": "k"})
         elif k == "counter":
@@ -90,7 +100,25 @@ def gen_seq(rng, with_counter=False):
     return seq
 
 
+def _wrap(fn, how, g):
+    """the same call made through a functools.partial or through an instance with __call__ (callables without __name__)"""
+    import functools
+
+    if how == "partial":
+        return functools.partial(fn)
+    if how == "object":
+        return g["CallableObject"](fn)
+    return fn
+
+
 def to_wire(req, g):
+    d = _to_wire(req, g)
+    if req.get("callable") and isinstance(d, dict) and "fn" in d and "init" not in d:
+        d = dict(d, fn=_wrap(d["fn"], req["callable"], g))
+    return d
+
+
+def _to_wire(req, g):
     t = req["t"]
     if t == "init":
         return {"init": True, "fn": g["mk_init"](dict(req["mem"])), "args": (), "kwargs": {}}
@@ -170,6 +198,7 @@ def drive(seq, mode):
     transcript = []
     note = ""
     dead = False
+    silent = False
     try:
         for i, req in enumerate(seq):
             try:
@@ -177,13 +206,17 @@ def drive(seq, mode):
             except zmq.Again:
                 continue
             bearing = req["t"] in ("ok", "raise", "preset", "counter", "shutdown") and not dead
-            tmo = 30000 if bearing else 25
+            tmo = (30000 if not silent else 300) if bearing else 25
+            answered = False
             while True:
                 if sock.poll(tmo):
                     transcript.append([i, canon_reply(cloudpickle.loads(sock.recv()))])
+                    answered = True
                     tmo = 25  # any further reply to the same request is spurious; look briefly
                     continue
                 break
+            if bearing and not answered:
+                silent = True   # the worker stopped answering: the transcript already differs, do not wait 30 s per later request
             if req["t"] == "shutdown":
                 dead = True
         ended = True
